@@ -22,7 +22,7 @@ ARG_SHAPES = [
     [1, 2], (4, 2.5), [True, 3], [2.5, 1], {"a": 5, "b": 1.5}, {"k": [1, (2, 0.5)]}, [S, 4], (None, "x", 7),
     [[1, 2], [3, 4]], ([0.5], {"z": 2}), [], {}, {"width": 3, "height": 5}, {"z": 1.5, "m": [2, {"b": 7, "a": 8}]},
 ]
-BODIES = ["identity", "product", "compare", "constant", "mixed", "first_twice", "same_object", "shared_constant"]
+BODIES = ["identity", "product", "compare", "constant", "mixed", "first_twice", "same_object", "shared_constant", "debug_text"]
 
 
 def leaves(x, out=None):
@@ -65,6 +65,11 @@ def body(name):
         if name == "constant" or not L:
             return 7
         a, b = L[0], L[-1]
+        if name == "debug_text":
+            # the body formats its wires (repr, str, %-formatting, f-string) the way a debug print or log line does
+            x = a * b
+            _t = [repr(a), str(b), "%s %r" % (x, a), "{} {!r}".format(x, b), f"{x}"]
+            return [x, a + 1]
         if name == "product":
             return a * b
         if name == "compare":
